@@ -156,6 +156,35 @@ def gen_typetables(repo):
     guards_none_base = False
     catch_all = []
     none_branch_eq = False
+    # the string branch of _check_type: does it look the name up in the context (and use isinstance on a class found there);
+    # does it compare the name with the names of the whole MRO (or only of the class and its first base)
+    str_ctx = False
+    str_mro = False
+    for n in ast.walk(ct):
+        if isinstance(n, ast.If) and isinstance(n.test, ast.Call) and isinstance(n.test.func, ast.Name) and n.test.func.id == 'isinstance' \
+                and len(n.test.args) == 2 and isinstance(n.test.args[1], ast.Name) and n.test.args[1].id == 'str':
+            body = ast.Module(body=n.body, type_ignores=[])
+            looked_up = set()
+            for m in ast.walk(body):
+                if isinstance(m, ast.Assign) and isinstance(m.value, ast.Call) and isinstance(m.value.func, ast.Attribute) \
+                        and m.value.func.attr == 'get' and 'context' in ast.unparse(m.value.func.value) \
+                        and len(m.value.args) == 1 and ast.unparse(m.value.args[0]) == 'type_':
+                    looked_up |= {t.id for t in m.targets if isinstance(t, ast.Name)}
+            for m in ast.walk(body):
+                if isinstance(m, ast.If) and isinstance(m.test, ast.Call) and ast.unparse(m.test.func) == 'isinstance' \
+                        and len(m.test.args) == 2 and ast.unparse(m.test.args[0]) in looked_up and ast.unparse(m.test.args[1]) == 'type' \
+                        and len(m.body) == 1 and isinstance(m.body[0], ast.Return) \
+                        and ast.unparse(m.body[0].value) in {f'isinstance(value, {v})' for v in looked_up}:
+                    str_ctx = True
+                if isinstance(m, ast.Return) and isinstance(m.value, ast.Call) and ast.unparse(m.value.func) == 'any' and len(m.value.args) == 1 \
+                        and isinstance(m.value.args[0], (ast.GeneratorExp, ast.ListComp)):
+                    g = m.value.args[0]
+                    it = ast.unparse(g.generators[0].iter)
+                    el = ast.unparse(g.elt)
+                    var = ast.unparse(g.generators[0].target)
+                    if it in ('type(value).__mro__', 'value.__class__.__mro__') and not g.generators[0].ifs \
+                            and el in (f'{var}.__name__ == type_', f'type_ == {var}.__name__'):
+                        str_mro = True
     for n in ast.walk(ct):
         if isinstance(n, ast.IfExp) and isinstance(n.test, ast.Compare) and isinstance(n.test.ops[0], ast.IsNot) \
                 and isinstance(n.test.comparators[0], ast.Constant) and n.test.comparators[0].value is None:
@@ -281,6 +310,10 @@ def lookup (t : List (String × Nat)) (k : String) : Option Nat :=
     L.append('/-- `_check_type`: the string branch guards `__base__ is None`; the `None` branch is `value == type_` -/')
     L.append(f'def strBranchGuardsNoneBase : Bool := {lean_bool(guards_none_base)}')
     L.append(f'def noneBranchIsEq : Bool := {lean_bool(none_branch_eq)}')
+    L.append('/-- `_check_type`, string branch: a name that is a class of the context is checked with isinstance against that class; the')
+    L.append('    name comparison runs over the names of the whole MRO -/')
+    L.append(f'def strBranchResolvesInContext : Bool := {lean_bool(str_ctx)}')
+    L.append(f'def strBranchComparesMro : Bool := {lean_bool(str_mro)}')
     L.append('/-- classes named by the last `except` arm around `_is_instance` -/')
     L.append('def catchAll : List String := ' + lean_list(lean_str(x) for x in catch_all))
     L.append('/-- element loops: quantifier, lazily evaluated (generator expression) or not -/')
